@@ -137,6 +137,43 @@ func secAlg(e *emitter) {
 			secAlgCase(e, true, alg, k, c, 1, dir, msg)
 		}
 	}
+	// block boundaries of a keystream / block buffer that is NOT a power of two (768 words, 1536 words, 3 KiB, 6 KiB …): every
+	// multiple B of 256 octets up to 4 KiB, then 6, 9 and 12 KiB, at B + 1, B + 2, B + 3 (a partial last word) and B − 1
+	{
+		var bs []int
+		for b := 256; b <= 4096; b += 256 {
+			bs = append(bs, b)
+		}
+		bs = append(bs, 6144, 9216, 12288)
+		for i, b := range bs {
+			if b&(b-1) == 0 && b >= 1024 {
+				continue // the powers of two are in the list above
+			}
+			for _, d := range []int{-1, 1, 2, 3} {
+				msg := e.bytes(b + d)
+				alg := uint8(1 + (i+d+4)%2)
+				secAlgCase(e, false, alg, keys[1], counts[(i+d+4)%len(counts)], 2, uint8(i%2), msg)
+				if d == 1 {
+					secAlgCase(e, false, 3-alg, keys[1], counts[i%len(counts)], 2, uint8(i%2), msg)
+					secAlgCase(e, true, alg, keys[1], counts[i%len(counts)], 2, uint8(i%2), msg)
+				}
+			}
+		}
+	}
+	// far beyond a NAS message (the property speaks of all inputs): more than 65 535 keystream words
+	{
+		giant := []int{262145}
+		if e.thorough() {
+			giant = []int{262141, 262144, 262145, 262400, 524289}
+		}
+		for i, l := range giant {
+			msg := e.bytes(l)
+			secAlgCase(e, false, 1, keys[1], counts[i%len(counts)], 1, 0, msg)
+			if e.thorough() {
+				secAlgCase(e, false, 2, keys[1], counts[i%len(counts)], 1, 1, msg)
+			}
+		}
+	}
 	// low-entropy messages: all-zero / all-one octets, and random messages with one 4/8/16-octet aligned block forced to
 	// zeros or ones at every block position (data-dependent shortcuts: skipped zero blocks, cached blocks, sign handling)
 	for _, l := range []int{1, 7, 8, 9, 15, 16, 17, 24, 31, 32, 33, 40, 64, 65, 100} {
